@@ -12,6 +12,7 @@
 import PgVerif.Proofs.SqlLex
 import PgVerif.Proofs.CsvParse
 import PgVerif.Proofs.ExportJson
+import PgVerif.Proofs.SqlDump
 namespace PgVerif.Props.C13
 open PgVerif PgVerif.Export PgVerif.Model.Export PgVerif.Proofs
 open PgVerif.Spec.SqlLex (next Tok)
@@ -64,6 +65,51 @@ theorem C13_json_check (F : FloatFmt) (hF : ExportJson.FloatOK F) (kvs : List (B
     Spec.Json.textAgrees F (.obj kvs) (mapToJSON F kvs) = true :=
   ExportJson.textAgrees_mapToJSON F hF kvs
 
+/-- Values: for EVERY cell value — NULL, booleans, integers of any sign, floats (finite, NaN, ±Inf), strings of any bytes,
+arrays nested to any depth, maps with hostile keys — the text of `formatSQLValue`, followed by a comma, `)` or `]`, is read by
+PostgreSQL's lexer as exactly the tokens `valueToks` and nothing of what follows is consumed; and the spec's decoder
+(`Spec.SqlExport.value`: NULL ⇔ nil, TRUE/FALSE, `-`? number with the decimal text, one string constant with exactly the
+bytes, one string constant holding valid JSON equal to the map, ARRAY [ … ] recursively) accepts exactly these tokens.
+`FloatOK`/`FloatSqlOK` are the contracts on the library's `%v` of floats. -/
+theorem C13_value (F : FloatFmt) (hF : ExportJson.FloatOK F) (hS : SqlValue.FloatSqlOK F) (v : GoVal) :
+    (∀ rest : Bytes, SqlValue.closeB rest.head? →
+      Spec.SqlLex.lex (formatSQLValue F v ++ rest) = (Spec.SqlLex.lex rest).map (SqlValue.valueToks F v ++ ·)) ∧
+    ∀ more, Spec.SqlExport.value F v (SqlValue.valueToks F v ++ more) = some more :=
+  ⟨SqlValue.reads_value F hS v, SqlValue.value_valueToks F hF v⟩
+
+/-- Whole export (composition): for every dump whose table and column names are non-empty and whose column type texts read
+as bare words (`DumpOK`; true of every type text pgread itself produces, see `C13_types`), and every timestamp text without
+a line break, the text of DumpResult.ToSQL tokenises under PostgreSQL's lexer, and the token sequence is exactly the one the
+property demands (`Spec.SqlExport.checkDump` consumes it entirely): per database two comments carrying name and OID, per
+table a comment, CREATE TABLE IF NOT EXISTS name ( column type, … ) ; and INSERT INTO name ( columns ) VALUES ( cells ), … ;
+where every database, table and column name and every value is exactly one comment / identifier / literal token (or the
+fixed group of a signed number or ARRAY[…]) that decodes back to the original, NULLs stay NULL, maps are valid JSON. -/
+theorem C13_sql (F : FloatFmt) (hF : ExportJson.FloatOK F) (hS : SqlValue.FloatSqlOK F) (now : Bytes)
+    (hnow : ∀ c ∈ now, Spec.SqlLex.isNewline c = false) (d : DumpResult) (ok : SqlDump.DumpOK d) :
+    Spec.SqlExport.sqlSafe F d (toSQL F now d) = true := by
+  unfold Spec.SqlExport.sqlSafe Spec.SqlExport.verdict
+  rw [SqlDump.lex_toSQL F hS now hnow d ok]
+  simp only [SqlDump.checkDump_dumpToks F hF now d ok]
+  rfl
+
+/-- the token sequence itself -/
+theorem C13_sql_tokens (F : FloatFmt) (hS : SqlValue.FloatSqlOK F) (now : Bytes)
+    (hnow : ∀ c ∈ now, Spec.SqlLex.isNewline c = false) (d : DumpResult) (ok : SqlDump.DumpOK d) :
+    Spec.SqlLex.lex (toSQL F now d) = some (SqlDump.dumpToks F now d) :=
+  SqlDump.lex_toSQL F hS now hnow d ok
+
+/-- One table on its own (TableDump.ToSQL), whatever text follows it. -/
+theorem C13_sql_table (F : FloatFmt) (hF : ExportJson.FloatOK F) (hS : SqlValue.FloatSqlOK F) (t : TableDump) (ok : SqlTable.TableOK t) :
+    (∀ rest : Bytes, Spec.SqlLex.lex (tableToSQL F t ++ rest) = (Spec.SqlLex.lex rest).map (SqlTable.tableToks F t ++ ·)) ∧
+    ∀ more, Spec.SqlExport.table F t (SqlTable.tableToks F t ++ more) = some more :=
+  ⟨fun rest => SqlTable.reads_table F hS t ok rest trivial, SqlTable.table_tableToks F hF t ok⟩
+
+/-- The hypothesis of `C13_sql` on column types holds for every column pgread fills itself: for every type oid, the type
+text written for (TypeName(oid), oid) — from the switch of pgTypeToSQL, or the upper-cased type name, or TEXT — reads as
+one or more bare words. -/
+theorem C13_types (oid : Int) : SqlTable.TypeTextOK (pgTypeToSQL (SqlDump.typeNameOf oid) oid) :=
+  SqlDump.pgread_types_ok oid
+
 /-- CSV, one table: for every table with at least one column (and whose header is not a single empty name) and ANY cell
 texts — commas, quotes, CR, LF, leading spaces, empty strings, NULLs — a standard CSV reader gets back exactly the header
 of column names followed by one record per row with the same field texts.  (Includes the one-column rows with an empty
@@ -90,11 +136,74 @@ theorem C13_csv_multi (F : FloatFmt) (d : DumpResult) :
   · intro db t
     exact ⟨CsvParse.headerLine_noNewline db t, CsvParse.headerOK_headerLine db t⟩
 
+/-- CSV, whole dump, read back: a reader that takes the export section by section — one header line, then as many records
+as the table has rows plus its header (skipping empty lines as standard readers do), then the empty separator line — finds,
+for every database and table in order, a header line that decodes to the two names and exactly the table's records with the
+same field texts, and nothing is left over.  (Tables without columns contribute a header line and no records.) -/
+theorem C13_csv_sections (F : FloatFmt) (d : DumpResult) (h : ∀ db ∈ d, ∀ t ∈ db.tables, t.columns.map (·.name) ≠ [[]]) :
+    Spec.CsvExport.sectionsVerdict (CsvParse.sectionsOf F d) (toCSV F d) = "ok" :=
+  CsvParse.dump_sections_ok F d h
+
 /-- non-vacuity of the hypotheses: a hostile name, a boundary the tool really writes, a table with a column -/
 example : ([97, 59, 34, 10] : Bytes) ≠ [] ∧ SqlLex.IdentBoundary [32, 40] ∧ SqlLex.StrBoundary [44, 32] ∧ SqlLex.StrBoundary [] := by
   refine ⟨by decide, ?_, ?_, ?_⟩
   · intro c hc; simp at hc; subst hc; decide
   · intro c hc; simp at hc; subst hc; decide
   · intro c hc; simp at hc
+
+/-- a concrete one-column table with an empty string, a missing value and a field full of separators: the hypotheses of
+`C13_csv` hold, and the reader gets four records (evaluated, not just implied) -/
+example :
+    let t : TableDump := { name := [116], columns := [{ name := [99], type := [], typID := 25 }],
+                           rows := [[([99], .str [])], [], [([99], .str [97, 44, 34, 10])]], rowCount := 3 }
+    t.columns ≠ [] ∧ t.columns.map (·.name) ≠ [[]] ∧
+    Spec.Csv.parse (tableToCSV SqlDump.exampleF t) = some [[[99]], [[]], [[]], [[97, 44, 34, 10]]] := by
+  decide
+
+/-- non-vacuity of the contracts on the float rendering: a rendering exists that satisfies both -/
+example : ExportJson.FloatOK SqlDump.exampleF ∧ SqlValue.FloatSqlOK SqlDump.exampleF := SqlDump.exampleF_ok
+
+/-- non-vacuity of `DumpOK`: a dump with a hostile database name, table name and column names, a jsonb and a float8 column -/
+example :
+    let d : DumpResult := [{ oid := 5, name := [100, 10, 45, 45], tables := [{
+      name := [97, 59, 68, 82, 79, 80, 34, 39], rowCount := -1,
+      columns := [{ name := [115, 101, 108, 101, 99, 116], type := SqlDump.typeNameOf 3802, typID := 3802 },
+                  { name := [49, 10], type := SqlDump.typeNameOf 701, typID := 701 }],
+      rows := [[([49, 10], .f64 0x7ff8000000000001), ([115, 101, 108, 101, 99, 116], .obj [([34, 92, 10], .str [39, 59])])]] }] }]
+    SqlDump.DumpOK d := by
+  intro d db hdb t ht
+  simp only [d, List.mem_singleton] at hdb
+  subst hdb
+  simp only [List.mem_singleton] at ht
+  subst ht
+  refine ⟨by simp, ?_⟩
+  intro c hc
+  simp only [List.mem_cons, List.not_mem_nil, or_false] at hc
+  rcases hc with h | h <;> subst h
+  · exact ⟨by simp, C13_types 3802⟩
+  · exact ⟨by simp, C13_types 701⟩
+
+/-- the composition evaluated on that dump (kernel computation, independent of the proofs): the model's text tokenises and
+the decoder consumes every token -/
+example :
+    let d : DumpResult := [{ oid := 5, name := [100, 10, 45, 45], tables := [{
+      name := [97, 59, 68, 82, 79, 80, 34, 39], rowCount := -1,
+      columns := [{ name := [115, 101, 108, 101, 99, 116], type := SqlDump.typeNameOf 3802, typID := 3802 },
+                  { name := [49, 10], type := SqlDump.typeNameOf 701, typID := 701 }],
+      rows := [[([49, 10], .f64 0x7ff8000000000001), ([115, 101, 108, 101, 99, 116], .obj [([34, 92, 10], .str [39, 59])])]] }] }]
+    Spec.SqlExport.sqlSafe SqlDump.exampleF d (toSQL SqlDump.exampleF [84] d) = true := by
+  decide +kernel
+
+/-- the specification has teeth: the texts the UNFIXED code wrote for the table names `Users` and `a;DROP TABLE x;--`
+(bare identifiers) are rejected — the first decodes to `users`, the second ends the statement and starts another -/
+example :
+    let t (n : String) : TableDump := { name := Spec.SqlLex.asc n, columns := [{ name := [99], type := [], typID := 25 }], rows := [], rowCount := 0 }
+    (Spec.SqlExport.verdict (Spec.SqlExport.table SqlDump.exampleF (t "Users"))
+      (Spec.SqlLex.asc "-- Table: Users (0 rows)\nCREATE TABLE IF NOT EXISTS Users (\n    c TEXT\n);\n\n") == "ok") = false ∧
+    (Spec.SqlExport.verdict (Spec.SqlExport.table SqlDump.exampleF (t "a;DROP TABLE x;--"))
+      (Spec.SqlLex.asc "-- Table: a;DROP TABLE x;-- (0 rows)\nCREATE TABLE IF NOT EXISTS a;DROP TABLE x;-- (\n    c TEXT\n);\n\n") == "ok") = false ∧
+    (Spec.SqlExport.verdict (Spec.SqlExport.table SqlDump.exampleF (t "Users"))
+      (tableToSQL SqlDump.exampleF (t "Users")) == "ok") = true := by
+  decide +kernel
 
 end PgVerif.Props.C13
